@@ -241,14 +241,22 @@ func (r Rect) CapBound() Cap {
 		poleZ = 1
 		poleAngle = math.Pi/2 - r.Lat.Lo
 	}
-	poleCap := CapFromCenterAngle(Point{r3.Vector{X: 0, Y: 0, Z: poleZ}}, s1.Angle(poleAngle)*s1.Radian)
+	// Ensure that the bounding cap is conservative taking into account errors in
+	// the arithmetic above and the Angle/ChordAngle conversion.
+	poleCap := CapFromCenterAngle(Point{r3.Vector{X: 0, Y: 0, Z: poleZ}}, s1.Angle((1+2*dblEpsilon)*poleAngle)*s1.Radian).roundedUp()
 
 	// For bounding rectangles that span 180 degrees or less in longitude, the
 	// maximum cap size is achieved at one of the rectangle vertices.  For
 	// rectangles that are larger than 180 degrees, we punt and always return a
 	// bounding cap centered at one of the two poles.
 	if math.Remainder(r.Lng.Hi-r.Lng.Lo, 2*math.Pi) >= 0 && r.Lng.Hi-r.Lng.Lo < 2*math.Pi {
-		midCap := CapFromPoint(PointFromLatLng(r.Center())).AddPoint(PointFromLatLng(r.Lo())).AddPoint(PointFromLatLng(r.Hi()))
+		// (All four vertices are needed: the vertex farthest from the centre can
+		// be any of them when the rectangle straddles the equator.)
+		midCap := CapFromPoint(PointFromLatLng(r.Center()))
+		for k := 0; k < 4; k++ {
+			midCap = midCap.AddPoint(PointFromLatLng(r.Vertex(k)))
+		}
+		midCap = midCap.roundedUp()
 		if midCap.Height() < poleCap.Height() {
 			return midCap
 		}
